@@ -19,7 +19,7 @@ NextAWait ==
     ELSE \/ \E g \in GuardIds : DropGuardA(g)
          \/ Plain(\E g \in WriteGuards : Set("g", g, 1))
          \/ \E f \in FutIds : PollFut(f)
-         \/ \E s \in WaitingSubs : PollWaiting(s, WaiterOf(s).via, TRUE)
+         \/ \E s \in WaitingSubs, two \in TwoStage : PollWaiting(s, WaiterOf(s).via, two)
          \/ \E s \in SubIds \ WaitingSubs, via \in WaitVias : PollBlocked(s, via)
          \/ Plain(\E s \in SubIds \ WaitingSubs, via \in WaitVias : ReadNow /\ Poll(s, via))
          \/ \E f \in {Smallest(FutIds \ PendingFuts)} : f \in FutIds /\ StartWriter(1, f, "Update", 1)
